@@ -66,7 +66,7 @@ def from_path(m, sp, ef):
 
 
 def segment_size_of(fb):
-    hdr, ceb = layout(fb, 'shm_header::ShmHeader'), layout(fb, 'clock_bound_shm::ClockErrorBound')
+    hdr, ceb = layout(fb, '::ShmHeader'), layout(fb, 'clock_bound_shm::ClockErrorBound')
     if hdr is None or ceb is None:
         return None
     n = hdr['size'] + ceb['size']
@@ -101,13 +101,14 @@ def wipe_sequence(fb, chk, m=None):
 
 def header_fields(fb):
     """[(offset, width, name)] of the header as rustc laid it out, the magic pair split in its two words"""
-    hdr = layout(fb, 'shm_header::ShmHeader')
+    hdr = layout(fb, '::ShmHeader')
     out = []
     for f in sorted(hdr['variants'][0]['fields'], key=lambda f: f['offset']):
-        if f['name'] == 'magic':
+        role = common.HDR_ROLE_AT.get(f['offset'], f['name'])      # roles by place in the published layout
+        if role == 'magic':
             out += [(f['offset'], 4, 'magic0'), (f['offset'] + 4, 4, 'magic1')]
         else:
-            out.append((f['offset'], f['size'], f['name']))
+            out.append((f['offset'], f['size'], role))
     return out
 
 
@@ -232,7 +233,7 @@ def run(ctx, chk):
         chk.missing('C04.T2', 'open call of the mapping routine')
     # ---- T6 wipe layout
     info = wipe_sequence(fb, chk, m)
-    hdr = layout(fb, 'shm_header::ShmHeader')
+    hdr = layout(fb, '::ShmHeader')
     if info is not None and hdr is not None:
         want = header_fields(fb)
         for inf in info['all']:
